@@ -644,6 +644,188 @@ class _Classifying:
         return getattr(self._ctx, k)
 
 
+
+# ---------------------------------------------------------------------------- compiled cache: same shape, different clause content
+def traverse_obligations(ctx):
+    """every attribute of the conflict clause that the compiler's visit method reads is part of
+    the clause's `_traverse_internals` (so it takes part in the cache key and in the extracted
+    bind values)"""
+    import ast
+    import inspect
+    import textwrap
+
+    from sqlalchemy.dialects.mysql import base as my_base
+    from sqlalchemy.dialects.mysql import dml as my_dml
+    from sqlalchemy.dialects.postgresql import base as pg_base
+    from sqlalchemy.dialects.postgresql import dml as pg_dml
+    from sqlalchemy.dialects.sqlite import base as sl_base
+    from sqlalchemy.dialects.sqlite import dml as sl_dml
+
+    def attrs_read(fn, varnames):
+        tree = ast.parse(textwrap.dedent(inspect.getsource(fn)))
+        out = set()
+        for node in ast.walk(tree):
+            if isinstance(node, ast.Attribute) and isinstance(node.value, ast.Name) and node.value.id in varnames:
+                out.add(node.attr)
+        return out
+
+    # identity markers / non-content attributes the visit methods may touch
+    allowed = {"inserted_alias"}
+    specs = [
+        ("sqlite", sl_dml.OnConflictDoUpdate, [sl_base.SQLiteCompiler.visit_on_conflict_do_update, sl_base.SQLiteCompiler._on_conflict_target], {"clause", "on_conflict"}),
+        ("sqlite", sl_dml.OnConflictDoNothing, [sl_base.SQLiteCompiler.visit_on_conflict_do_nothing, sl_base.SQLiteCompiler._on_conflict_target], {"clause", "on_conflict"}),
+        ("postgresql", pg_dml.OnConflictDoUpdate, [pg_base.PGCompiler.visit_on_conflict_do_update, pg_base.PGCompiler._on_conflict_target], {"clause", "on_conflict"}),
+        ("postgresql", pg_dml.OnConflictDoNothing, [pg_base.PGCompiler.visit_on_conflict_do_nothing, pg_base.PGCompiler._on_conflict_target], {"clause", "on_conflict"}),
+        ("mysql", my_dml.OnDuplicateClause, [my_base.MySQLCompiler.visit_on_duplicate_key_update], {"on_duplicate"}),
+    ]
+    for dname, cls, fns, varnames in specs:
+        read = set()
+        for fn in fns:
+            read |= attrs_read(fn, varnames)
+        read = {a for a in read if not a.startswith("__")} - allowed
+        internals = {name for name, _ in cls._traverse_internals}
+        # only data attributes of the clause (those set in __init__ of the class hierarchy)
+        data_attrs = set()
+        for k in cls.__mro__:
+            init = k.__dict__.get("__init__")
+            if init is not None and k.__module__.startswith("sqlalchemy.dialects"):
+                data_attrs |= attrs_read(init, {"self"})
+        missing = sorted((read & data_attrs) - internals)
+        ctx.obligation("traverse_internals cover %s.%s as read by the compiler" % (dname, cls.__name__), not missing, "read by visit_* but not in _traverse_internals: %s" % missing)
+
+
+def cache_sequences(ctx, n):
+    """upserts of the same shape with different clause content, one after the other on ONE
+    engine with the default compiled cache, against a cache-less engine and the reference"""
+    import sqlalchemy as sa
+    from sqlalchemy.dialects import sqlite as sqlite_d
+
+    from harness.lib_dml import exc_enum
+
+    rng = ctx.rng
+    for _ in range(n):
+        uniques = [[[0], []], [[1], []]]
+        variation = rng.choice(["where_literal", "where_literal", "where_shape", "set_literal", "target", "set_expr"])
+        seq = []
+        for _i in range(rng.choice([2, 3, 4])):
+            w = rng.choice([1, 2, 3, 50])
+            v = rng.choice([7, 8, 9])
+            spec = {"target": [[0], []], "set": [[2, ["k", v]]], "where": ["<", ["o", 2], ["k", 2]]}
+            if variation == "where_literal":
+                spec["where"] = ["<", ["o", 2], ["k", w]]
+            elif variation == "where_shape":
+                spec["where"] = rng.choice([["<", ["o", 2], ["k", 2]], ["<", ["k", 2], ["o", 2]], ["!", ["o", 2], ["k", 2]], ["T"]])
+            elif variation == "set_literal":
+                spec["set"] = [[2, ["k", v]]]
+                spec["where"] = ["T"]
+            elif variation == "set_expr":
+                spec["set"] = [[2, rng.choice([["e", 2], ["o", 3], ["+", ["o", 2], ["k", v]]])]]
+                spec["where"] = ["T"]
+            elif variation == "target":
+                spec["target"] = rng.choice([[[0], []], [[1], []]])
+                spec["where"] = ["T"]
+            seq.append(spec)
+        table = [[1, 10, 1, 1], [2, 20, 2, 2], [3, 30, 3, 3]]
+        rows = [[rng.choice([1, 2, 3]), rng.choice([40, 50, 60]) if variation != "target" else rng.choice([10, 20, 30, 40]), rng.choice([0, 5]), 9] for _ in seq]
+        if variation == "target":
+            rows = [[rng.choice([1, 2, 3, 7, 8]), rng.choice([10, 20, 30, 70]), 5, 9] for _ in seq]
+        case = {"cacheseq": variation, "seq": seq, "rows": rows, "table": table}
+        ctx.case(("cacheseq", str(case)), nontrivial=True)
+        ctx.count("cacheseq=" + variation)
+        bad = run_cache_sequence(case)
+        if bad:
+            ctx.violation(bad[0], case, bad[1])
+
+
+def run_cache_sequence(case):
+    import sqlalchemy as sa
+    from sqlalchemy.dialects import sqlite as sqlite_d
+
+    from harness.lib_dml import exc_enum
+
+    uniques = [[[0], []], [[1], []]]
+    engines = [sa.create_engine("sqlite://"), sa.create_engine("sqlite://", query_cache_size=0)]
+    m, t = make_table(uniques)
+    states = []
+    try:
+        for eng in engines:
+            m.create_all(eng)
+            with eng.begin() as c:
+                for r in case["table"]:
+                    c.execute(sa.insert(t), dict(zip(COLS, r)))
+        ref = [list(r) for r in case["table"]]
+        for i, (spec, row) in enumerate(zip(case["seq"], case["rows"])):
+            cl = {"target": spec["target"], "action": ["U", spec["set"], spec["where"]]}
+            c1 = {"clauses": [cl], "uniques": uniques, "table": ref, "params": [{"row": row, "binds": [None, None]}], "bptype": "int", "coltype": "int"}
+            stmt = build_stmt(c1, t, sqlite_d)
+            outs = []
+            for eng in engines:
+                try:
+                    with eng.begin() as c:
+                        c.execute(stmt, dict(zip(COLS, row)))
+                    outs.append("ok")
+                except Exception as e:  # noqa: BLE001
+                    outs.append(exc_enum(e))
+                with eng.connect() as c:
+                    outs.append(sorted([list(r) for r in c.execute(sa.select(t.c.k, t.c.u, t.c.a, t.c.b))]))
+            r = reference(c1)
+            want = sorted(ref) if r == "err" else sorted(r[0])
+            if r != "err":
+                ref = [list(x) for x in r[0]]
+            if outs[2] != ("IntegrityError" if r == "err" else "ok") or outs[3] != want:
+                return ("c56-cacheless-engine-differs-from-reference", "step %d: cache-less engine %s %s, reference %s" % (i, outs[2], outs[3], want))
+            if outs[0] != outs[2] or outs[1] != outs[3]:
+                return ("c56-compiled-cache-stale-clause", "step %d (%s): cached engine %s %s, cache-less engine %s %s" % (i, enc_clause(cl), outs[0], outs[1], outs[2], outs[3]))
+        return None
+    finally:
+        for eng in engines:
+            eng.dispose()
+
+
+def cache_key_pairs(ctx, n):
+    """PostgreSQL / MySQL (never executed): two statements differing in clause content either
+    have different cache keys or the differing value is among the extracted parameters"""
+    import sqlalchemy as sa
+    from sqlalchemy.dialects import mysql as mysql_d
+    from sqlalchemy.dialects import postgresql as pg_d
+
+    rng = ctx.rng
+    uniques = [[[0], []], [[1], []]]
+    m, t = make_table(uniques)
+
+    def distinguished(s1, s2):
+        k1, k2 = s1._generate_cache_key(), s2._generate_cache_key()
+        if k1 is None or k2 is None:
+            return True
+        if k1.key != k2.key:
+            return True
+        v1 = [b.value for b in k1.bindparams]
+        v2 = [b.value for b in k2.bindparams]
+        return v1 != v2
+
+    for _ in range(n):
+        w1, w2 = rng.sample([1, 2, 3, 50], 2)
+        v1, v2 = rng.sample([7, 8, 9], 2)
+        pairs = []
+        ins = pg_d.insert(t)
+        pairs.append(("pg-where-literal", ins.on_conflict_do_update(index_elements=[t.c.k], set_={"a": 1}, where=t.c.a < w1), ins.on_conflict_do_update(index_elements=[t.c.k], set_={"a": 1}, where=t.c.a < w2)))
+        pairs.append(("pg-where-shape", ins.on_conflict_do_update(index_elements=[t.c.k], set_={"a": 1}, where=t.c.a < w1), ins.on_conflict_do_update(index_elements=[t.c.k], set_={"a": 1}, where=t.c.a > w1)))
+        pairs.append(("pg-where-present", ins.on_conflict_do_update(index_elements=[t.c.k], set_={"a": 1}, where=t.c.a < w1), ins.on_conflict_do_update(index_elements=[t.c.k], set_={"a": 1})))
+        pairs.append(("pg-set-literal", ins.on_conflict_do_update(index_elements=[t.c.k], set_={"a": v1}), ins.on_conflict_do_update(index_elements=[t.c.k], set_={"a": v2})))
+        pairs.append(("pg-set-column", ins.on_conflict_do_update(index_elements=[t.c.k], set_={"a": v1}), ins.on_conflict_do_update(index_elements=[t.c.k], set_={"b": v1})))
+        pairs.append(("pg-target", ins.on_conflict_do_update(index_elements=[t.c.k], set_={"a": v1}), ins.on_conflict_do_update(index_elements=[t.c.u], set_={"a": v1})))
+        pairs.append(("pg-index-where", ins.on_conflict_do_nothing(index_elements=[t.c.u], index_where=t.c.a > w1), ins.on_conflict_do_nothing(index_elements=[t.c.u], index_where=t.c.a > w2)))
+        pairs.append(("pg-constraint", ins.on_conflict_do_nothing(constraint="uq_u"), ins.on_conflict_do_nothing(constraint="uq_other")))
+        mi = mysql_d.insert(t)
+        pairs.append(("mysql-set-literal", mi.on_duplicate_key_update(a=v1), mi.on_duplicate_key_update(a=v2)))
+        pairs.append(("mysql-set-column", mi.on_duplicate_key_update(a=v1), mi.on_duplicate_key_update(b=v1)))
+        pairs.append(("mysql-set-expr", mi.on_duplicate_key_update(a=mi.inserted.a), mi.on_duplicate_key_update(a=mi.inserted.b)))
+        pairs.append(("mysql-ordering", mi.on_duplicate_key_update([("a", v1), ("b", v2)]), mi.on_duplicate_key_update([("b", v2), ("a", v1)])))
+        for name, s1, s2 in pairs:
+            ctx.count("cachekey:" + name)
+            if not distinguished(s1, s2):
+                ctx.violation("c56-cache-key-ignores:" + name, {"cachekey": name}, "two statements differing in %s share cache key and extracted parameters" % name)
+
 # ---------------------------------------------------------------------------- run
 def one(ctx, case, names, cases, impl_out, reqs):
     try:
@@ -697,6 +879,9 @@ def run(ctx):
     names, cases, impl_out, reqs = [], [], [], []
     for _ in range(n):
         one(ctx, gen_case(ctx.rng, ctx.tier), names, cases, impl_out, reqs)
+    traverse_obligations(ctx)
+    cache_sequences(ctx, 120 if ctx.tier == "quick" else 1500)
+    cache_key_pairs(ctx, 3 if ctx.tier == "quick" else 20)
     if ctx.driver_ok():
         model = ctx.driver(reqs)
         for nm in sorted(set(names)):
@@ -713,6 +898,15 @@ def search(ctx, broken):
 
 def replay(ctx, obj):
     case = obj["case"]
+    if isinstance(case, dict) and "cacheseq" in case:
+        bad = run_cache_sequence(case)
+        print("replay C56 cache sequence %s -> %s" % (case["cacheseq"], bad))
+        return bool(bad)
+    if isinstance(case, dict) and "cachekey" in case:
+        sub = type(ctx)(ctx.pid, "quick", ctx.seed, ctx.level)
+        cache_key_pairs(sub, 3)
+        print("replay C56 cache key pairs -> %s" % [v["key"] for v in sub.violations])
+        return bool(sub.violations)
     if obj.get("key", "").split(":")[0] in ("c56-pg-compile", "c56-pg-render-missing", "c56-pg-render-target", "c56-pg-render-action", "c56-pg-render-set", "c56-pg-render-where", "c56-pg-plan-exception", "c56-pg-has-upsert-bound-flag", "c56-pg-bound-upsert-batched", "c56-mysql-compile", "c56-mysql-render-missing", "c56-mysql-render-set-order", "c56-mysql-render-inserted-refs", "c56-render-crash"):
         sub = type(ctx)(ctx.pid, "quick", ctx.seed, ctx.level)
         try:
